@@ -67,7 +67,7 @@ def callgraph(cx):
              reachable_functions=len(reach))
 
 
-@obligation("APPEND.prev_match", ["C01", "C05"], floor=1, kind="guard",
+@obligation("APPEND.prev_match", ["C01", "C05", "C20"], floor=1, kind="guard",
             why="the log-matching induction step: entries are accepted only onto a matching (prev index, prev term)")
 def prev_match(cx):
     n = 0
@@ -81,6 +81,18 @@ def prev_match(cx):
                 return r is not None and r[1][0] == "param" and r[2][0] == "param" and r[1] != r[2]
             require(cx, c, cx.site_key(c, "call:RaftLog::append"), "the follower-path append needs log.term(idx) == term for the (idx, term) it was given", acc, kill=False)
     cx.check(n >= 1, "floor", "a follower-path append exists")
+    # an append that starts below the commit index never reaches the matching/append machinery: below the
+    # commit index the follower may have compacted, and term() answers 0 / Compacted there (a conflict
+    # "found" in that range is a fatal!)
+    f = follower_append_fns(cx)
+    for c in cx.prog.call_sites_of("RaftLog::maybe_append"):
+        if c.fn.crate != "raft" or c.fn.key in f:
+            continue
+        args = call_args(cx, c)
+        idx = args[1]
+        def not_below_commit(l, idx=idx):
+            return l[0] == "is" and l[2] is False and l[1][0] == "bin" and l[1][1] == "Lt" and l[1][2] == idx and l[1][3][0] == "field" and l[1][3][2] == "RaftLog.committed"
+        require(cx, c, cx.site_key(c, "call:RaftLog::maybe_append"), "maybe_append(idx, ..) is reached only if !(idx < committed)", not_below_commit, kill=False)
 
 
 @obligation("APPEND.conflict_suffix", ["C05", "C14"], floor=2, kind="value shape",
